@@ -216,6 +216,28 @@ class SymExec:
             return None
         raise ExtractError('emit_smt: no default value for type %r' % (t,))
 
+    def arbitrary_value(self, t, prefix):
+        """a value of type t all of whose scalars are fresh symbols (an arbitrary prior state)"""
+        B = self.B
+        if front.is_scalar(t):
+            return B.real(prefix) if t[0] == 'float' else (B.const(prefix, 'Bool') if t[0] == 'bool' else B.int(prefix))
+        if t[0] == 'eig':
+            return [(B.real if t[1][0] == 'float' else B.int)('%s_%d' % (prefix, k)) for k in range(t[2] * t[3])]
+        if t[0] == 'struct':
+            rec = self.prog.records[t[1]]
+            d = {}
+            for b in rec['bases']:
+                d['base'] = self.arbitrary_value(('struct', b), prefix + '_base')
+            for fn, ft in rec['fields']:
+                if ft[0] in ('vector', 'list', 'map', 'queue', 'string', 'ptr'):
+                    d[fn] = None
+                elif ft[0] == 'mutex':
+                    d[fn] = {'held': '0'}
+                else:
+                    d[fn] = self.arbitrary_value(ft, prefix + '_' + fn)
+            return d
+        return self.default_value(t)
+
     # -- calling a function -----------------------------------------------------------------
     def call(self, cname, args, pc='true'):
         """args: list of values (scalars: terms; aggregates by pointer: Cell). returns value"""
@@ -310,6 +332,9 @@ class Frame:
             name, t, init = s[1], s[2], s[3]
             if init is None:
                 v = self.sx.default_value(t)
+            elif init[0] == 'unspecified':
+                self.B.unspec_counter = getattr(self.B, 'unspec_counter', 0) + 1
+                v = self.sx.arbitrary_value(t, 'unspecified_%d' % self.B.unspec_counter)
             else:
                 v = self.ev(init, pc)
                 if isinstance(v, (list, dict)):
@@ -555,6 +580,10 @@ class Frame:
             if op == '||':
                 b = self.ev(e[3], land(pc, lnot(a))); return lor(a, b)
             b = self.ev(e[3], pc)
+            if a == 'NaN' or b == 'NaN':
+                if op in ('==', '<', '>', '<=', '>='): return 'false'
+                if op == '!=': return 'true'
+                return 'NaN'
             t = e[4]
             ta = e[2][-1] if isinstance(e[2][-1], tuple) else t
             tb = e[3][-1] if isinstance(e[3][-1], tuple) else t
@@ -607,7 +636,8 @@ class Frame:
             if name in emit_limits():
                 return emit_limits()[name]
             if name == 'quiet_nan':
-                raise ExtractError('emit_smt: NaN has no real-number meaning')
+                B.note('quiet_NaN kept as the marker NaN: comparisons with it are decided by the IEEE rule, any other use leaves the marker in the term (and the query undecided)')
+                return 'NaN'
             av = [self.ev(a, pc) for a in args]
             return self.sx.call(name, av, pc)
         raise ExtractError('emit_smt: expression kind %r' % (k,))
@@ -823,14 +853,14 @@ class Builder:
         raise ExtractError('emit_smt: while loop in %s needs a loop handler (fixed-point summary)' % frame.fn.cname)
 
     # -- VCs ------------------------------------------------------------------------------------
-    def vc(self, name, goal, assume=(), bounded=None, timeout=None, functions=(), subst=()):
+    def vc(self, name, goal, assume=(), bounded=None, timeout=None, functions=(), subst=(), refute_only=False):
         """subst: [(term, symbol)] -- generalisation step: every occurrence of `term` in goal and assumptions is replaced by the
         fresh symbol (sound: the VC with the symbol universally quantified implies the VC with the term); facts about the term
         that the proof needs are passed as assumptions and are themselves proved by separate lemma VCs (without subst)."""
         for term, sym in sorted(subst, key=lambda p: -len(p[0])):
             goal = goal.replace(term, sym)
             assume = [a.replace(term, sym) for a in assume]
-        self.vcs.append({'name': name, 'goal': goal, 'assume': list(assume), 'bounded': bounded, 'timeout': timeout, 'subst': list(subst),
+        self.vcs.append({'name': name, 'goal': goal, 'assume': list(assume), 'bounded': bounded, 'timeout': timeout, 'subst': list(subst), 'refute_only': refute_only,
                          'functions': sorted(set(functions) | set(self.functions_called))})
 
     def domain_vcs(self, prefix, assume=(), skip=()):
@@ -1006,7 +1036,7 @@ def decide(vc, text, work, tier):
         if any(r[0] == 'unsat' for r in vres.values()):
             return {'name': vc['name'], 'goal': vc['goal'][:800], 'bounded': vc.get('bounded'), 'functions': vc.get('functions', []), 'status': 'vacuous',
                     'solver_results': {nm: '%s (%.2fs)' % (r[0], r[2]) for nm, r in vres.items()}, 'seconds': time.time() - t0, 'smt_file': vpath}
-    res = {'name': vc['name'], 'goal': vc['goal'][:800], 'bounded': vc.get('bounded'), 'functions': vc.get('functions', []),
+    res = {'name': vc['name'], 'goal': vc['goal'][:800], 'bounded': vc.get('bounded'), 'functions': vc.get('functions', []), 'refute_only': vc.get('refute_only', False),
            'solver_results': {nm: '%s (%.2fs)' % (r[0], r[2]) for nm, r in results.items()}, 'seconds': time.time() - t0, 'smt_file': path}
     if 'unsat' in sts.values() and 'sat' in sts.values():
         res['status'] = 'disagreement'
